@@ -191,10 +191,20 @@ pub fn result_json<T: Kind>(r: Result<GenericPurl<T>, <T as PurlShape>::Error>) 
 
 fn op_parse<T: Kind>(req: &Value) -> Value {
     let s = unhex(&req["s"]);
-    match T::parse(&s) {
+    #[allow(unused_mut)]
+    let mut v = match T::parse(&s) {
         Some(r) => result_json::<T>(r),
         None => json!({"unsupported": "parse for this kind"}),
+    };
+    #[cfg(feature = "pt")]
+    if req["T"] == "Purl" {
+        if let Ok(p) = purl::Purl::from_str(&s) {
+            let cn = p.combined_name().to_string();
+            let b = purl::Purl::builder_with_combined_name(*p.package_type(), cn.as_str());
+            v["combined_again"] = json!({"combined": hx(&cn), "ns": hx(&b.parts.namespace), "name": hx(&b.parts.name)});
+        }
     }
+    v
 }
 
 /// builder scripts: {"type": hex, "name": hex, "steps": [[op, args...], ...]}
@@ -266,6 +276,58 @@ fn op_build<T: Kind>(req: &Value) -> Value {
     result_json::<T>(b.build())
 }
 
+/// two values of one kind: equality, hashing and ordering against the canonical strings
+fn op_pair<T: Kind>(req: &Value) -> Value {
+    fn make<T: Kind>(r: &Value) -> Result<GenericPurl<T>, String> {
+        if r["op"] == "parse" {
+            match T::parse(&unhex(&r["s"])) {
+                Some(Ok(p)) => Ok(p),
+                Some(Err(e)) => Err(T::err_name(&e)),
+                None => Err("unsupported".into()),
+            }
+        } else {
+            let ty = T::make(&unhex(&r["type"]))?;
+            let mut b: GenericPurlBuilder<T> = GenericPurlBuilder::new(ty, unhex(&r["name"]));
+            for st in r["steps"].as_array().map(|v| v.as_slice()).unwrap_or(&[]) {
+                let a = |i: usize| unhex(&st[i]);
+                b = match st[0].as_str().unwrap() {
+                    "with_namespace" => b.with_namespace(a(1)),
+                    "with_version" => b.with_version(a(1)),
+                    "with_subpath" => b.with_subpath(a(1)),
+                    "with_name" => b.with_name(a(1)),
+                    "with_qualifier" => b.with_qualifier(a(1), a(2)).map_err(|e| parse_err_name(&e))?,
+                    other => return Err(format!("unsupported step {}", other)),
+                };
+            }
+            b.build().map_err(|e| T::err_name(&e))
+        }
+    }
+    let a = match make::<T>(&req["a"]) {
+        Ok(p) => p,
+        Err(e) => return json!({ "a_err": e }),
+    };
+    let b = match make::<T>(&req["b"]) {
+        Ok(p) => p,
+        Err(e) => return json!({ "b_err": e }),
+    };
+    let (da, db) = (a.to_string(), b.to_string());
+    json!({"eq": a == b, "disp_eq": da == db, "hash_eq": hash_of(&a) == hash_of(&b), "cmp_ab": a.cmp(&b) as i8,
+           "cmp_ba": b.cmp(&a) as i8, "pcmp_ab": a.partial_cmp(&b).map(|o| o as i8), "disp_a": hx(&da), "disp_b": hx(&db)})
+}
+
+fn pair_dispatch(req: &Value) -> Value {
+    match req["T"].as_str().unwrap_or("String") {
+        "String" => op_pair::<String>(req),
+        #[cfg(feature = "ss")]
+        "SmallString" => op_pair::<purl::SmallString>(req),
+        "CowB" => op_pair::<CowB>(req),
+        "CowO" => op_pair::<CowO>(req),
+        #[cfg(feature = "pt")]
+        "Purl" => op_pair::<purl::PackageType>(req),
+        t => json!({"unsupported": format!("kind {}", t)}),
+    }
+}
+
 fn dispatch_kind(req: &Value, f_parse: bool) -> Value {
     let t = req["T"].as_str().unwrap_or("String");
     macro_rules! go {
@@ -290,6 +352,17 @@ fn handle(req: &Value) -> Value {
         "parse" => dispatch_kind(req, true),
         "build" => dispatch_kind(req, false),
         "tables" => tables::dump(),
+        "multi" => {
+            // several requests answered as one (product harnesses compare them)
+            let rs: Vec<Value> = req["reqs"].as_array().unwrap().iter().map(|r| {
+                match catch_unwind(AssertUnwindSafe(|| handle(r))) {
+                    Ok(v) => v,
+                    Err(_) => json!({"panic": "panic"}),
+                }
+            }).collect();
+            json!({ "res": rs })
+        },
+        "pair" => pair_dispatch(req),
         #[cfg(feature = "pt")]
         "both" => {
             // the same string through the type-agnostic and the typed parser, plus the documented name rules
